@@ -20,6 +20,11 @@ pub struct RoCase {
     /// FAT32: 0 = leave the free count alone, 1 = total clusters + 1 (out of range), 2 = 0xFFFFFFFE
     #[serde(default)]
     pub odd_count: u8,
+    /// the populating session is not unmounted but abandoned with its handles open and unflushed (power cut): the
+    /// volume is really dirty, with whatever half-updated entries the history left (e.g. a truncated chain whose
+    /// directory entry still carries the old size)
+    #[serde(default)]
+    pub abandon_setup: bool,
 }
 
 fn setup_gen() -> GenCfg {
@@ -42,7 +47,10 @@ fn ro_gen() -> GenCfg {
 pub fn eval(c: &RoCase) -> CaseOut {
     let mut out = CaseOut::default();
     out.hash = run::hash_str(&serde_json::to_string(c).unwrap_or_default());
-    let setup_cfg = RunCfg::new(&[]);
+    let mut setup_cfg = RunCfg::new(&[]);
+    if c.abandon_setup {
+        setup_cfg.flush_each = false;
+    }
     let mut ro_cfg = RunCfg::new(&[Aspect::NoWrite, Aspect::Panic, Aspect::Budget]);
     ro_cfg.flush_each = false;
     let mut vol = c.vol.clone();
@@ -79,7 +87,10 @@ pub fn eval(c: &RoCase) -> CaseOut {
             2 => Some(0xFFFF_FFFE),
             _ => None,
         };
-        run.begin_readonly_with(c.dirty, c.fsinfo_unknown, hint, count)?;
+        if c.abandon_setup {
+            run.abandon_keep_image();
+        }
+        run.begin_readonly_with(c.dirty || c.abandon_setup, c.fsinfo_unknown, hint, count)?;
         for (i, op) in c.ro.iter().enumerate() {
             run.exec(1000 + i, op)?;
             if run.sess.is_none() {
@@ -121,7 +132,7 @@ fn strategy() -> impl Strategy<Value = RoCase> {
         let mut mem: Vec<String> = Vec::new();
         let setup = s_raw.iter().flat_map(|r| gen::decode_op(&sg, &nt, cs, r, &mut mem)).collect();
         let ro = r_raw.iter().flat_map(|r| gen::decode_op(&rg, &nt, cs, r, &mut mem)).collect();
-        RoCase { vol, setup, ro, dirty: flags & 3 == 0, fsinfo_unknown: flags & 12 == 0, end_by_drop: flags & 16 != 0, odd_hint: if flags & 32 != 0 { 1 + (flags >> 6) + 3 * (flags & 1) } else { 0 }, odd_count: if flags & 0xC0 == 0xC0 { 1 + (flags & 1) } else { 0 } }
+        RoCase { vol, setup, ro, dirty: flags & 3 == 0, fsinfo_unknown: flags & 12 == 0, end_by_drop: flags & 16 != 0, abandon_setup: flags % 5 == 0, odd_hint: if flags & 32 != 0 { 1 + (flags >> 6) + 3 * (flags & 1) } else { 0 }, odd_count: if flags & 0xC0 == 0xC0 { 1 + (flags & 1) } else { 0 } }
     })
 }
 
@@ -131,7 +142,7 @@ pub fn replay(v: &serde_json::Value) -> Result<Option<String>, String> {
 }
 
 pub fn run(tier: Tier, seed: u64) -> i32 {
-    let rule = "volumes of every FAT width populated by a generated mutating history (library-formatted and imggen geometries), then raw-edited to be clean or dirty, with the FS-info count present, unknown or out of range and the next-free hint valid or out of range (last+1, last+2, 0x0FFFFFFF, 0, 1); a generated read-only session (mount, list, open existing/missing, seek, read, extents, labels, status flags, stats, handle drops, unmount or drop, repeated remounts) runs on an instrumented device; oracle = the device's write log over the whole session is empty, sole exception FAT32 + stats() + no usable count at mount (unknown / out of range / volume dirty), where writes must lie inside the FS-info sector and store the true count; non-trivial = session reads file data, calls stats and lists or queries labels; distinct by hash of the case";
+    let rule = "volumes of every FAT width populated by a generated mutating history (library-formatted and imggen geometries), then cleanly unmounted and raw-edited to be clean or dirty, or abandoned with open unflushed handles (a real power cut: half-updated entries included), with the FS-info count present, unknown or out of range and the next-free hint valid or out of range (last+1, last+2, 0x0FFFFFFF, 0, 1); a generated read-only session (mount, list, open existing/missing, seek, read, extents, labels, status flags, stats, handle drops, unmount or drop, repeated remounts) runs on an instrumented device; oracle = the device's write log over the whole session is empty, sole exception FAT32 + stats() + no usable count at mount (unknown / out of range / volume dirty), where writes must lie inside the FS-info sector and store the true count; non-trivial = session reads file data, calls stats and lists or queries labels; distinct by hash of the case";
     let mut rep = Report::new("C13", tier, seed, "exploration", rule);
     rep.assume("access-date updating is left disabled (the property's condition)");
     let mut reg = Block::new("regress");
